@@ -2,12 +2,12 @@
 # usage: savemut.sh <Cxx> <N> "<checks that were run and outcome>"   — copies /tmp/mut/Cxx/_out/N into /verif/seeded/Cxx-N
 p=$1; n=$2; note=$3
 d=/verif/seeded/$p-$n; mkdir -p $d
-cp /tmp/mutout/$p/$n/patch.diff $d/patch.diff
-for f in /tmp/mutout/$p/$n/*; do case "$f" in *patch.diff|*meta.json) ;; *) cp -r "$f" $d/ ;; esac; done
+cp ${MUTSRC:-/tmp/mutout}/$p/$n/patch.diff $d/patch.diff
+for f in ${MUTSRC:-/tmp/mutout}/$p/$n/*; do case "$f" in *patch.diff|*meta.json) ;; *) cp -r "$f" $d/ ;; esac; done
 python3 - "$p" "$n" "$note" <<'PY'
-import json,sys
+import json,sys,os
 p,n,note=sys.argv[1:4]
-src=json.load(open(f'/tmp/mutout/{p}/{n}/meta.json'))
+src=json.load(open(os.environ.get('MUTSRC','/tmp/mutout')+f'/{p}/{n}/meta.json'))
 m={"breaks_property":p,"title":src.get("title"),"what_it_breaks":src.get("what_it_breaks"),"needs_to_manifest":src.get("needs_to_manifest"),
    "files_changed":src.get("files_changed"),"author_suite_result":src.get("suite_result"),"demo_how_to_run":src.get("demo_how_to_run"),"what_i_ran":note}
 json.dump(m,open(f'/verif/seeded/{p}-{n}/meta.json','w'),indent=1)
